@@ -420,7 +420,8 @@ class _LayoutBase(Prop):
             # the tree is the caller's own <body>, sole content of an HTMLDocument: its markup sits at indent 1
             def body_of(o):
                 html = H.HTMLDocument(o).render()["html"]
-                return html[html.index("  <body"): html.index("</body>") + len("</body>")]
+                # (the LAST </body>: an element inside the tree may be called body as well)
+                return html[html.index("  <body"): html.rindex("</body>") + len("</body>")]
             try:
                 out, out0 = body_of(obj), body_of(obj0)
             except RuntimeError:
